@@ -5,6 +5,8 @@
 (* perfutil/provide.py (the functions are atomic under the module lock)    *)
 (* plus the unlocked code that follows it up to the next section:          *)
 (*   enter  - {% provide %}: store the data, provider references itself    *)
+(*   regowner - ... and the component whose template contains the tag      *)
+(*            references it too (until that component is rendered)         *)
 (*   reg    - component prepared: register_provide_reference, then         *)
 (*            get_context_data calls inject() (or raises: "regfail")       *)
 (*   unreg  - component finished / failed component releases itself        *)
@@ -28,7 +30,7 @@ Hid(t) == <<"h", t>>
 Program(t) ==
   CASE Workloads[t] = "ok"     -> << <<"enter", Pid(t)>>, <<"reg", Cid(t)>>, <<"unreg", Cid(t)>>, <<"exit", Pid(t)>> >>
     [] Workloads[t] = "fail"   -> << <<"enter", Pid(t)>>, <<"regfail", Cid(t)>>, <<"unreg", Cid(t)>>, <<"exitfail", Pid(t)>> >>
-    [] Workloads[t] = "host"   -> << <<"regnone", Hid(t)>>, <<"enter", Pid(t)>>, <<"reg", Cid(t)>>, <<"exit", Pid(t)>>,
+    [] Workloads[t] = "host"   -> << <<"regnone", Hid(t)>>, <<"enter", Pid(t)>>, <<"regowner", Hid(t)>>, <<"reg", Cid(t)>>, <<"exit", Pid(t)>>,
                                      <<"unreg", Cid(t)>>, <<"unreg", Hid(t)>> >>
     [] Workloads[t] = "noprov" -> << <<"regnone", Cid(t)>>, <<"unreg", Cid(t)>> >>
 
@@ -76,6 +78,8 @@ Step(t) ==
                LET s1 == Register(Cur, id, {Pid(t)}) IN
                /\ Becomes(s1) /\ injects' = Append(injects, <<t, Pid(t) \in s1.cache>>) /\ UNCHANGED before
           [] kind = "regnone" -> Becomes(Register(Cur, id, {})) /\ UNCHANGED <<before, injects>>
+          \* ProvideNode.render: the component whose template holds the tag references the data
+          [] kind = "regowner" -> Becomes(Register(Cur, id, {Pid(t)})) /\ UNCHANGED <<before, injects>>
           [] kind = "unreg" -> Becomes(Unregister(Cur, id)) /\ UNCHANGED <<before, injects>>
           [] kind = "exit" -> Becomes(Cleanup(Unregister(Cur, id), id)) /\ UNCHANGED <<before, injects>>
           [] kind = "exitfail" ->
